@@ -3084,10 +3084,13 @@ impl Actor {
             Ok((burn_amount, reward_amount))
         })?;
 
+        let mut burn_amount = burn_amount;
         if let Err(e) =
-            extract_send_result(rt.send_simple(&reporter, METHOD_SEND, None, reward_amount))
+            extract_send_result(rt.send_simple(&reporter, METHOD_SEND, None, reward_amount.clone()))
         {
             error!("failed to send reward: {}", e);
+            // The reward was deducted from the penalty to burn; burn it when it can't be paid.
+            burn_amount += reward_amount;
         }
 
         burn_funds(rt, burn_amount)?;
